@@ -316,9 +316,16 @@ class Sketch:
     def declare(self, cid, case):
         var = f"b{len(self.ids)}"
         self.ids.append(cid)
-        d0 = case["default"]
-        self.lines.append(f"{var} = Buzzer({case['pin']})" if d0 is None
-                          else f"{var} = Buzzer({case['pin']}, default_frequency={d0!r})")
+        d0, pin = case["default"], case["pin"]
+        # declaration spellings: positional pin, pin=, default_frequency first, a constant expression as pin
+        psrc = [f"{pin}", f"pin={pin}", f"pin={pin}", f"{pin - 1} + 1"][case.get("style", 0) % 4]
+        if d0 is None:
+            decl = f"Buzzer({psrc})"
+        elif case.get("style", 0) % 4 == 2:
+            decl = f"Buzzer(default_frequency={d0!r}, {psrc})"
+        else:
+            decl = f"Buzzer({psrc}, default_frequency={d0!r})"
+        self.lines.append(f"{var} = {decl}")
         self.lines.append(f'mon.write("##case {cid}")')
         self.lines += self.getters(var)
         return var
